@@ -339,6 +339,46 @@ def run_unit(unit):
                 else:
                     agg.outcomes["agree"] += 1
         agg.sample({"history": ["sort", "derive a re-ordered object from the result", "sort again"], "kind": kind, "len": n})
+    elif what == "object-keys":
+        # key columns of OBJECT dtype whose values are orderable numbers of several kinds (reached through to_object() or through
+        # a stray string that was overwritten): ordered by VALUE like any other key, None last / first
+        from serif import Vector, Table
+        pool = [1, 2.5, True, None, 0, -1.5, 3]
+        for n in (2, 3, 4):
+            for vals in itertools.product(pool, repeat=n):
+                vals = list(vals)
+                if len({type(x) for x in vals if x is not None}) < 2:
+                    continue
+                agg.states += 1; agg.nontrivial += 1
+                for how in ("to_object", "stray-string-overwritten"):
+                    for rev in (False, True):
+                        for na_last in (True, False):
+                            agg.evals += 1; agg.transitions += 2; agg.compared += 1
+                            case = {"keys": [repr(x) for x in vals], "object_dtype_through": how, "reverse": rev, "na_last": na_last}
+                            try:
+                                if how == "to_object":
+                                    k = Vector(list(vals)).to_object()
+                                else:
+                                    k = Vector(list(vals) + ["stray"])
+                                    k[n] = vals[0] if vals[0] is not None else 0
+                                    k = k[0:n]
+                                if k.schema() is None or k.schema().kind is not object:
+                                    agg.skipped["not-an-object-column"] += 1
+                                    continue
+                                t = Table([Vector(list(range(n)), name="pos"), k])
+                                kv = list(t._underlying[1]._underlying)
+                                got = list(t.sort_by(t._underlying[1], reverse=rev, na_last=na_last)._underlying[0]._underlying)
+                                gotv = [repr(x) for x in k.sort_by(reverse=rev, na_last=na_last)._underlying]
+                            except Exception as e:
+                                agg.violation(V("table.sort_by.object-keys", "raises-" + type(e).__name__, case, None, repr(e)[:80]))
+                                continue
+                            want = spec_sort(list(range(n)), [kv], [rev], na_last)
+                            if got != want:
+                                agg.violation(V("table.sort_by.object-keys", "wrong-order", case, want, got))
+                            elif gotv != [repr(kv[i]) for i in want]:
+                                agg.violation(V("vector.sort_by.object-keys", "wrong-order", case, [repr(kv[i]) for i in want], gotv))
+                            else:
+                                agg.outcomes["agree"] += 1
     elif what == "rename":
         # rename columns through live views so that a NAME moves to another column, then sort by that name
         from serif import Vector, Table
@@ -488,6 +528,7 @@ def check(ctx):
     units += [("hist", "intc", 3)]
     units += [("large",)]
     units += [("sort-derive-sort", k, n) for k in ("int", "str") for n in (2, 3, 4)]
+    units += [("object-keys",)]
     agg = core.merge_all(core.pmap(run_unit, units))
     agg.notes["bound"] = f"tables rows<={N} (1 key) / <={N2} (2 keys) / <={ctx.pick(2,3)} (3 keys); vectors len<={N}"
     agg.notes["exhaustive"] = True
